@@ -55,7 +55,14 @@ pub struct CaseRun {
 pub fn run_case(case: &AxCase, arch: Arch, info: &ArchInfo, heap_monitor: bool) -> CaseRun {
     let mut out = CaseRun { verdict: Verdict::Match, fault: None, boundaries: 0, ref_steps: 0, insns: 0, prints: 0, heap: None };
     if let Err(e) = check_linear_prog(&case.prog) {
-        out.verdict = Verdict::Machinery(format!("generated program {} is not linearly well-typed: {e}", case.name));
+        // programs built by this harness must be linearly well-typed; programs that come out of the
+        // repository's linearizer may not be (that is C05's business) and are then outside the
+        // premise of the code-generation properties
+        out.verdict = if case.name.starts_with("fun/") {
+            Verdict::Skip(format!("precondition: the pipeline's linearized program is not linearly well-typed ({e})"))
+        } else {
+            Verdict::Machinery(format!("generated program {} is not linearly well-typed: {e}", case.name))
+        };
         return out;
     }
     let reference = run_positional(&case.prog, 0, &case.args, 200_000);
@@ -64,6 +71,11 @@ pub fn run_case(case: &AxCase, arch: Arch, info: &ArchInfo, heap_monitor: bool) 
         Ok((t, _)) => t,
         Err(StageError::Panic { msg, .. }) if is_capacity_panic(&msg) => {
             out.verdict = Verdict::Skip(format!("capacity: {msg}"));
+            return out;
+        }
+        Err(StageError::Panic { msg, .. }) if arch == Arch::Rv64 && msg.contains("not implemented in RISC-V backend") => {
+            // C08's domain is print-free programs
+            out.verdict = Verdict::Skip("capacity: program prints (outside the RV64 property's domain)".into());
             return out;
         }
         Err(e) => {
@@ -174,6 +186,8 @@ pub fn worker(ctx: &WorkerCtx, arch: Arch, mode: Mode) -> Report {
                 rep.count("skipped", 1);
                 if why.starts_with("capacity") {
                     rep.count("skipped_capacity", 1);
+                } else if why.starts_with("precondition") {
+                    rep.count("skipped_not_linearly_well_typed", 1);
                 } else {
                     rep.count("skipped_undefined", 1);
                 }
@@ -216,6 +230,25 @@ pub fn worker(ctx: &WorkerCtx, arch: Arch, mode: Mode) -> Report {
     };
     let mut sink = Sink { idx: 0, shard: ctx.shard, n: ctx.nshards, f: &mut handle };
     all_families(&cfg, &mut sink);
+    // the linearized programs produced by the real pipeline from the Fun families (real
+    // multi-statement interaction: sharing, lifted definitions, closures, jump tables)
+    {
+        use crate::generate::funfam::{all_fun_families, FunCase, FunCfg, FunSink};
+        let fcfg = FunCfg { thorough: ctx.tier.thorough(), with_unsequenced: true };
+        let mut fh = |fc: FunCase| {
+            // a slice of the (large) FUN-S family, everything else in full
+            if fc.name.starts_with("small/") && hash64(&fc.name) % (if ctx.tier.thorough() { 2 } else { 8 }) != 0 {
+                return;
+            }
+            let Ok(st) = crate::pipeline::all_stages(&fc.src) else { return };
+            for input in fc.inputs.iter().take(if ctx.tier.thorough() { 8 } else { 2 }) {
+                let case = AxCase { name: format!("fun/{}", fc.name), prog: st.linear.clone(), args: input.clone(), uses_print: true };
+                handle(case);
+            }
+        };
+        let mut fsink = FunSink { idx: 0, shard: ctx.shard, n: ctx.nshards, f: &mut fh };
+        all_fun_families(&fcfg, &mut fsink);
+    }
     rep
 }
 
@@ -230,7 +263,24 @@ pub fn replay(case: &serde_json::Value) -> Option<(String, Verdict)> {
     let info = arch_info(arch);
     let with_print = case["with_print"].as_bool().unwrap_or(arch != Arch::Rv64) || arch != Arch::Rv64;
     let mut found: Option<AxCase> = None;
+    if let Some(fname) = name.strip_prefix("fun/") {
+        use crate::generate::funfam::{all_fun_families, FunCase, FunCfg, FunSink};
+        let args: Vec<i64> = case["args"].as_array().map(|a| a.iter().filter_map(|x| x.as_i64()).collect()).unwrap_or_default();
+        let fcfg = FunCfg { thorough: true, with_unsequenced: true };
+        let mut fh = |fc: FunCase| {
+            if fc.name == fname && found.is_none() {
+                if let Ok(st) = crate::pipeline::all_stages(&fc.src) {
+                    found = Some(AxCase { name: name.clone(), prog: st.linear, args: args.clone(), uses_print: true });
+                }
+            }
+        };
+        let mut fsink = FunSink { idx: 0, shard: 0, n: 1, f: &mut fh };
+        all_fun_families(&fcfg, &mut fsink);
+    }
     for tier in [Tier::Quick, Tier::Thorough] {
+        if found.is_some() {
+            break;
+        }
         let cfg = fam_cfg(arch, tier, with_print && arch != Arch::Rv64);
         let mut h = |c: AxCase| {
             if c.name == name && found.is_none() {
